@@ -4,7 +4,11 @@ import (
 	"context"
 
 	"github.com/orbs-network/lean-helix-go/services/interfaces"
+	"github.com/orbs-network/lean-helix-go/services/messagesfactory"
+	"github.com/orbs-network/lean-helix-go/services/preparedmessages"
+	"github.com/orbs-network/lean-helix-go/services/randomseed"
 	"github.com/orbs-network/lean-helix-go/spec/types/go/primitives"
+	"github.com/orbs-network/lean-helix-go/spec/types/go/protocol"
 	stub "github.com/orbs-network/lean-helix-go/zzverifstub"
 )
 
@@ -117,4 +121,59 @@ func equalWeights(n int) []uint64 {
 		w[i] = 1
 	}
 	return w
+}
+
+// ---------------- honest peers ----------------
+
+// vNet: the committee as seen by the harness: one real MessageFactory per member (each with its own
+// key in the shared ideal-signature registry), used to produce honest traffic and, with symbolic
+// field values, adversarial traffic signed under a chosen member's key.
+type vNet struct {
+	reg       *stub.Registry
+	committee []interfaces.CommitteeMember
+	instance  primitives.InstanceId
+	seed      uint64
+	facs      []*messagesfactory.MessageFactory
+	kms       []*stub.KeyManager
+}
+
+func newVNet(reg *stub.Registry, committee []interfaces.CommitteeMember, instance primitives.InstanceId, prevProof []byte) *vNet {
+	net := &vNet{reg: reg, committee: committee, instance: instance}
+	net.seed = randomseed.CalculateRandomSeed(protocol.BlockProofReader(prevProof).RandomSeedSignature())
+	for _, m := range committee {
+		km := stub.NewKeyManager(reg, m.Id)
+		net.kms = append(net.kms, km)
+		net.facs = append(net.facs, messagesfactory.NewMessageFactory(instance, km, m.Id, net.seed))
+	}
+	return net
+}
+
+func (net *vNet) leaderIdx(v primitives.View) int { return int(uint64(v) % uint64(len(net.committee))) }
+
+func (net *vNet) ppm(idx int, h primitives.BlockHeight, v primitives.View, b *stub.Block) *interfaces.PreprepareMessage {
+	return net.facs[idx].CreatePreprepareMessage(h, v, b, stub.HashOf(b))
+}
+func (net *vNet) pm(idx int, h primitives.BlockHeight, v primitives.View, hash primitives.BlockHash) *interfaces.PrepareMessage {
+	return net.facs[idx].CreatePrepareMessage(h, v, hash)
+}
+func (net *vNet) cm(idx int, h primitives.BlockHeight, v primitives.View, hash primitives.BlockHash) *interfaces.CommitMessage {
+	return net.facs[idx].CreateCommitMessage(h, v, hash)
+}
+func (net *vNet) vcm(idx int, h primitives.BlockHeight, v primitives.View, prepared *preparedmessages.PreparedMessages) *interfaces.ViewChangeMessage {
+	return net.facs[idx].CreateViewChangeMessage(h, v, prepared)
+}
+
+// nvm: NEW_VIEW by member idx carrying the given votes and proposing block b.
+func (net *vNet) nvm(idx int, h primitives.BlockHeight, v primitives.View, votes []*interfaces.ViewChangeMessage, b *stub.Block) *interfaces.NewViewMessage {
+	ppb := net.facs[idx].CreatePreprepareMessageContentBuilder(h, v, b, stub.HashOf(b))
+	return net.facs[idx].CreateNewViewMessage(h, v, ppb, interfaces.ExtractConfirmationsFromViewChangeMessages(votes), b)
+}
+
+// prepared: a prepared certificate for (h, v, block): PREPREPARE by leader(v) and PREPAREs by the given members.
+func (net *vNet) prepared(h primitives.BlockHeight, v primitives.View, b *stub.Block, preparers []int) *preparedmessages.PreparedMessages {
+	p := &preparedmessages.PreparedMessages{PreprepareMessage: net.ppm(net.leaderIdx(v), h, v, b)}
+	for _, i := range preparers {
+		p.PrepareMessages = append(p.PrepareMessages, net.pm(i, h, v, stub.HashOf(b)))
+	}
+	return p
 }
